@@ -46,15 +46,15 @@ Local Open Scope string_scope.
     36  archive_read.c:400  [archive_read_set_callback_data2]  ARCHIVE_STATE_NEW
     37  archive_read.c:436  [archive_read_add_callback_data]  ARCHIVE_STATE_NEW
     38  archive_read.c:488  [archive_read_open]  ARCHIVE_STATE_NEW
-    39  archive_read.c:649  [archive_read_next_header]  ARCHIVE_STATE_HEADER | ARCHIVE_STATE_DATA
-    40  archive_read.c:781  [archive_read_header_position]  ARCHIVE_STATE_ANY
-    41  archive_read.c:975  [archive_read_data_skip]  ARCHIVE_STATE_DATA
-    42  archive_read.c:998  [archive_seek_data_block]  ARCHIVE_STATE_DATA
-    43  archive_read.c:1024  [archive_read_data_block]  ARCHIVE_STATE_DATA
-    44  archive_read.c:1096  [archive_read_close]  ARCHIVE_STATE_ANY | ARCHIVE_STATE_FATAL
-    45  archive_read.c:1127  [archive_read_free]  ARCHIVE_STATE_ANY | ARCHIVE_STATE_FATAL
-    46  archive_read.c:1244  [__archive_read_register_format]  ARCHIVE_STATE_NEW
-    47  archive_read.c:1287  [__archive_read_register_bidder]  ARCHIVE_STATE_NEW
+    39  archive_read.c:653  [archive_read_next_header]  ARCHIVE_STATE_HEADER | ARCHIVE_STATE_DATA
+    40  archive_read.c:785  [archive_read_header_position]  ARCHIVE_STATE_ANY
+    41  archive_read.c:979  [archive_read_data_skip]  ARCHIVE_STATE_DATA
+    42  archive_read.c:1002  [archive_seek_data_block]  ARCHIVE_STATE_DATA
+    43  archive_read.c:1028  [archive_read_data_block]  ARCHIVE_STATE_DATA
+    44  archive_read.c:1100  [archive_read_close]  ARCHIVE_STATE_ANY | ARCHIVE_STATE_FATAL
+    45  archive_read.c:1131  [archive_read_free]  ARCHIVE_STATE_ANY | ARCHIVE_STATE_FATAL
+    46  archive_read.c:1248  [__archive_read_register_format]  ARCHIVE_STATE_NEW
+    47  archive_read.c:1291  [__archive_read_register_bidder]  ARCHIVE_STATE_NEW
     48  archive_read_add_passphrase.c:92  [archive_read_add_passphrase]  ARCHIVE_STATE_NEW
     49  archive_read_add_passphrase.c:115  [archive_read_set_passphrase_callback]  ARCHIVE_STATE_NEW
     50  archive_read_data_into_fd.c:93  [archive_read_data_into_fd]  ARCHIVE_STATE_DATA
@@ -113,7 +113,7 @@ Local Open Scope string_scope.
    103  archive_read_support_format_cab.c:356  [archive_read_support_format_cab]  ARCHIVE_STATE_NEW
    104  archive_read_support_format_cpio.c:228  [archive_read_support_format_cpio]  ARCHIVE_STATE_NEW
    105  archive_read_support_format_empty.c:44  [archive_read_support_format_empty]  ARCHIVE_STATE_NEW
-   106  archive_read_support_format_iso9660.c:463  [archive_read_support_format_iso9660]  ARCHIVE_STATE_NEW
+   106  archive_read_support_format_iso9660.c:465  [archive_read_support_format_iso9660]  ARCHIVE_STATE_NEW
    107  archive_read_support_format_lha.c:263  [archive_read_support_format_lha]  ARCHIVE_STATE_NEW
    108  archive_read_support_format_mtree.c:273  [archive_read_support_format_mtree]  ARCHIVE_STATE_NEW
    109  archive_read_support_format_rar.c:734  [archive_read_support_format_rar]  ARCHIVE_STATE_NEW
@@ -124,8 +124,8 @@ Local Open Scope string_scope.
    114  archive_read_support_format_warc.c:145  [archive_read_support_format_warc]  ARCHIVE_STATE_NEW
    115  archive_read_support_format_xar.c:74  [archive_read_support_format_xar]  ARCHIVE_STATE_NEW
    116  archive_read_support_format_xar.c:450  [archive_read_support_format_xar]  ARCHIVE_STATE_NEW
-   117  archive_read_support_format_zip.c:3595  [archive_read_support_format_zip]  ARCHIVE_STATE_NEW
-   118  archive_read_support_format_zip.c:4387  [archive_read_support_format_zip_seekable]  ARCHIVE_STATE_NEW
+   117  archive_read_support_format_zip.c:3605  [archive_read_support_format_zip]  ARCHIVE_STATE_NEW
+   118  archive_read_support_format_zip.c:4397  [archive_read_support_format_zip_seekable]  ARCHIVE_STATE_NEW
    119  archive_write.c:133  [archive_write_set_bytes_per_block]  ARCHIVE_STATE_NEW
    120  archive_write.c:151  [archive_write_get_bytes_per_block]  ARCHIVE_STATE_ANY
    121  archive_write.c:168  [archive_write_set_bytes_in_last_block]  ARCHIVE_STATE_ANY
@@ -182,7 +182,7 @@ Local Open Scope string_scope.
    172  archive_write_set_format_cpio_newc.c:112  [archive_write_set_format_cpio_newc]  ARCHIVE_STATE_NEW
    173  archive_write_set_format_cpio_odc.c:106  [archive_write_set_format_cpio_odc]  ARCHIVE_STATE_NEW
    174  archive_write_set_format_iso9660.c:1058  [archive_write_set_format_iso9660]  ARCHIVE_STATE_NEW
-   175  archive_write_set_format_mtree.c:1421  [<fn>]  ARCHIVE_STATE_NEW
+   175  archive_write_set_format_mtree.c:1462  [<fn>]  ARCHIVE_STATE_NEW
    176  archive_write_set_format_pax.c:117  [archive_write_set_format_pax_restricted]  ARCHIVE_STATE_NEW
    177  archive_write_set_format_pax.c:135  [archive_write_set_format_pax]  ARCHIVE_STATE_NEW
    178  archive_write_set_format_raw.c:54  [archive_write_set_format_raw]  ARCHIVE_STATE_NEW
